@@ -149,7 +149,7 @@ func dropEmptyKeys(o [][2]string) [][2]string {
 }
 
 var byteFaults = []string{"bitflip", "bitflip", "rewrite", "mapping_slack", "mapping_slack", "cert_slack", "cert_slack", "peer_slack", "element_smuggle", "element_smuggle", "type_confusion", "type_confusion", "flag_downgrade", "after_sig", "sig_swap", "key_subst", "replay", "revocation_key_forgery"}
-var shapeFaults = []string{"offline_forgery", "offline_forgery", "offline_transplant", "store_confusion"}
+var shapeFaults = []string{"offline_forgery", "offline_forgery", "offline_transplant", "store_confusion", "offline_extension", "offline_extension"}
 
 func (World) Generate(r *engine.RNG, tier string) *engine.Script {
 	prop := engine.Property
@@ -182,6 +182,11 @@ func (World) Generate(r *engine.RNG, tier string) *engine.Script {
 		op.Actor = fmt.Sprintf("pub%d", op.Shape.IdentSeed)
 		s.Ops = append(s.Ops, op)
 		if r.Intn(3) < faultRate {
+			if r.Chance(1, 2) {
+				// the floodfill has already seen (and verified) the honest original
+				// when the tampered copy arrives
+				s.Ops[len(s.Ops)-1].S = []string{"honest-first"}
+			}
 			for k, nf := 0, r.PickInt(1, 1, 1, 2, 3); k < nf; k++ {
 				f := engine.Fault{At: int64(i)}
 				if r.Chance(1, 3) && kind != "rinfo" && kind != "leaseset" && kind != "offsig" {
@@ -241,6 +246,19 @@ func applyShapeFault(sh *engine.Shape, f *engine.Fault) bool {
 		tt := []int{7, 7, 11}[int(f.N[1])%3]
 		sh.Offline = &engine.OfflineShape{Transient: tt, Expires: 1 + uint64(f.N[2]), Seed: 700 + b, Forge: 3, ForgeSeed: b}
 		return true
+	case "offline_extension":
+		// the holder of a genuinely authorised transient key changes the expiry
+		// of its own delegation and keeps the identity's signature
+		if sh.Kind == "offsig" || sh.Offline == nil || sh.Offline.Forge != 0 {
+			return false
+		}
+		was := sh.Offline.Expires
+		now := []uint64{0xFFFFFFFF, was + 1, was + 86400*365, was ^ 1<<31, was - 1}[int(f.N[0])%5] & 0xFFFFFFFF
+		if now == was {
+			now = (was + 7) & 0xFFFFFFFF
+		}
+		sh.Offline.AltExpires, sh.Offline.Expires, sh.Offline.Forge = was, now, 4
+		return true
 	case "store_confusion":
 		want := map[string]int{"ls2": 3, "mls": 7, "els": 5}[sh.Kind]
 		if want == 0 {
@@ -267,7 +285,7 @@ func nextIsNot(fr *refmodel.Frame, off int, suffix string) bool {
 }
 
 func isShapeFault(k string) bool {
-	return k == "offline_forgery" || k == "offline_transplant" || k == "store_confusion"
+	return k == "offline_forgery" || k == "offline_transplant" || k == "store_confusion" || k == "offline_extension"
 }
 
 // applyByteFault tampers with m.raw; returns false if the fault does not
@@ -791,6 +809,10 @@ func executeC05(s *engine.Script, o *engine.Outcome) {
 			continue
 		}
 		faults := byTag[op.N[0]]
+		if len(faults) > 0 && len(op.S) > 0 && op.S[0] == "honest-first" {
+			deliver(o, op, nil, recorded, false)
+			o.Fault("honest-original-verified-first")
+		}
 		m, accepted, ref, parsed := deliver(o, op, faults, recorded, true)
 		if m == nil {
 			continue
